@@ -54,3 +54,85 @@ Theorem C17_kron_is_tensor : forall n1 n2 (A B : mat) (X : nat -> nat -> Q) i1 i
   == bigsum (fun j1 => bigsum (fun j2 => A i1 j1 * B i2 j2 * X j1 j2) n2) n1.
 Proof. exact kron_is_tensor. Qed.
 Print Assumptions C17_kron_is_tensor.
+
+(* conversions are mutually inverse (entries below N) *)
+Theorem C17_U2T_inverse : forall N k j, (k < N)%nat -> (j < N)%nat ->
+  mmul N U2T T2U k j == mI k j /\ mmul N T2U U2T k j == mI k j.
+Proof. exact U2T_inverse. Qed.
+Print Assumptions C17_U2T_inverse.
+
+(* p-th derivative = p-th matrix power (what get_differentiation_matrix(p) computes) *)
+Theorem C17_cheb_diff_p_correct : forall N c p,
+  peq (pderiv_n p (pseries chebT c N)) (pseries chebT (mv N (mpow N DT p) c) N).
+Proof. exact cheb_diff_p_correct. Qed.
+Print Assumptions C17_cheb_diff_p_correct.
+
+(* sparse ultraspherical operator = conversions applied to the dense Chebyshev operator, every N and order *)
+Theorem C17_ultra_matches_dense : forall N p, (1 <= p)%nat ->
+  forall k j, (k < N)%nat -> (j < N)%nat -> mmul N (Ubc N 0 p) (mpow N DT p) k j == UD 1 p k j.
+Proof. exact ultra_matches_dense. Qed.
+Print Assumptions C17_ultra_matches_dense.
+
+(* integration matrix (reference interval): D * S = I on polynomials of degree < N - 1, every N *)
+Theorem C17_cheb_int_is_right_inverse : forall N k j, (k < N)%nat -> (j + 1 < N)%nat ->
+  mmul N DT (ST 1) k j == mI k j.
+Proof. exact cheb_int_is_right_inverse. Qed.
+Print Assumptions C17_cheb_int_is_right_inverse.
+
+Theorem C17_cheb_int_then_diff : forall N c, (1 <= N)%nat -> c (N - 1)%nat == 0 ->
+  peq (pderiv (pseries chebT (mv N (ST 1) c) N)) (pseries chebT c N).
+Proof. exact cheb_int_then_diff. Qed.
+Print Assumptions C17_cheb_int_then_diff.
+
+(* backward basis changes (the code inverts numerically; the model uses the closed form) *)
+Theorem C17_S_inverse : forall N lam k j, (k < N)%nat -> (j < N)%nat -> mmul N (US lam) (USinv lam) k j == mI k j.
+Proof. exact US_USinv. Qed.
+Print Assumptions C17_S_inverse.
+
+Theorem C17_basis_change_inverse : forall N d lo k j, (k < N)%nat -> (j < N)%nat ->
+  mmul N (Ubc N lo d) (Ubc_inv N lo d) k j == mI k j.
+Proof. exact Ubc_Ubc_inv. Qed.
+Print Assumptions C17_basis_change_inverse.
+
+(* ultraspherical operators in the Gegenbauer bases; the Gegenbauer identities are validated by kernel computation
+   for every degree < 64 (hence _upto64); lam = 0 (T -> U) is C17_T2U_correct for every N *)
+Theorem C17_ultra_diff_correct_upto64 : forall N p c, (N <= 64)%nat -> (p = 1 \/ p = 2 \/ p = 3)%nat ->
+  peq (pderiv_n p (pseries chebT c N)) (pseries (geg p) (mv N (UD 1 p) c) N).
+Proof. exact ultra_diff_correct_upto64. Qed.
+Print Assumptions C17_ultra_diff_correct_upto64.
+
+Theorem C17_ultra_S_correct_upto64 : forall N lam c, (N <= 64)%nat -> (lam = 1 \/ lam = 2)%nat ->
+  peq (pseries (geg lam) c N) (pseries (geg (S lam)) (mv N (US lam) c) N).
+Proof. exact ultra_S_correct_upto64. Qed.
+Print Assumptions C17_ultra_S_correct_upto64.
+
+(* Fourier: fftfreq ordering, (i k)^p, integration inverts differentiation off the zero mode *)
+Theorem C17_wavenumbers : forall N j, (j < N)%nat ->
+  ((wavenum N j - Z.of_nat j) mod Z.of_nat N = 0 /\ - Z.of_nat N <= 2 * wavenum N j < Z.of_nat N)%Z.
+Proof. exact wavenum_spec. Qed.
+Print Assumptions C17_wavenumbers.
+
+Theorem C17_fourier_diff_power : forall k p, ceq (cpow (0, k) p)
+  (match (p mod 4)%nat with 0%nat => (Qpown k p, 0) | 1%nat => (0, Qpown k p) | 2%nat => (- Qpown k p, 0) | _ => (0, - Qpown k p) end).
+Proof. exact FD_power. Qed.
+Print Assumptions C17_fourier_diff_power.
+
+Theorem C17_fourier_int_inverts_diff : forall k p, ~ k == 0 -> ceq (cmul (cpow (cinv (0, k)) p) (cpow (0, k) p)) (1, 0).
+Proof. exact FS_FD_inverse. Qed.
+Print Assumptions C17_fourier_int_inverts_diff.
+
+(* the evaluated tables compared with the live code are the matrices the theorems speak about *)
+Theorem C17_tables_are_model : forall N,
+  (forall fac p, meq N (tget (DTp_tab N fac p)) (DTp N fac p)) /\
+  (forall lo d, meq N (tget (Ubc_tab N lo d)) (Ubc N lo d)) /\
+  (forall lo d, meq N (tget (Ubc_inv_tab N lo d)) (Ubc_inv N lo d)).
+Proof. exact tables_are_model. Qed.
+Print Assumptions C17_tables_are_model.
+
+(* non-vacuity: T_3 = 4x^3 - 3x, its derivative through D, and a concrete instance of the _upto64 hypotheses *)
+Example C17_nonvacuous :
+  map Qred (chebT 3) = [0; -(3); 0; 4] /\
+  map Qred (tabv 4 (mv 4 DT (fun j => if Nat.eqb j 3 then 1 else 0))) = [3; 0; 6; 0] /\
+  map Qred (geg 2 2) = [-(2); 0; 12].
+Proof. vm_compute. repeat split. Qed.
+Print Assumptions C17_nonvacuous.
